@@ -1170,6 +1170,96 @@ class Table:
 def f():
     t = Table()
     return Diff().run([1, 4, 9]), Twice().run([1, 2]), [(tag, fn(2)) for tag, fn in _REGISTRY], t.dispatch(3), t.dispatch('x'), t.dispatch(2.5)
+---
+from dataclasses import dataclass as _dataclass, field as _field
+def f():
+    scale = 3
+    @_dataclass
+    class _Search:
+        start: tuple
+        frontier: dict = _field(default_factory=lambda: {(0, 0): 0})
+        done: list = _field(default_factory=list)
+        steps: int = _field(default=0)
+        label: str = _field(default='s', init=False)
+        def settle(self):
+            k = min(self.frontier)
+            self.done.append(k)
+            self.steps += 1
+            return self.frontier.pop(k)
+    s1, s2 = _Search((0, 0)), _Search((1, 1), {(2, 2): 5}, steps=4)
+    s1.settle()
+    try:
+        _Search((0, 0), label='x')
+        lab = None
+    except TypeError:
+        lab = 'TypeError'
+    searches = (s1.done, s1.frontier, s1.steps, s2.frontier, s2.done, s2.steps, s1.label, lab, s1 == _Search((0, 0)), _Search((0, 0)) == _Search((0, 0)))
+    @_dataclass(frozen=True)
+    class _Feature:
+        name: str
+        layer: list
+        weight: float = 1.5
+        required = True
+        def missing(self, have):
+            return self.required and self.name not in have
+        def value(self, v):
+            return v * scale * self.weight
+    class _Uid(_Feature):
+        required = False
+        def value(self, v):
+            return 'uid'
+    class _Twice(_Feature):
+        def value(self, v):
+            return 2 * super().value(v)
+    fs = [(_Uid if n == 'uid' else _Feature)(n, []) for n in ('speed', 'uid')] + [_Twice('t', [], weight=2.0)]
+    fs[0].layer.append(1)
+    try:
+        fs[0].name = 'x'
+        frozen = False
+    except Exception as ex:
+        frozen = type(ex).__name__
+    try:
+        _Feature()
+        need = None
+    except TypeError:
+        need = 'TypeError'
+    return ([f_.missing({'a'}) for f_ in fs], [f_.value(2) for f_ in fs], fs[0] == _Feature('speed', [1]), fs[0] == fs[1], frozen, need,
+            isinstance(fs[1], _Feature), isinstance(fs[0], _Uid), fs[2].weight, _Uid.required, _Feature.required, searches)
+---
+import enum as _enum
+class _Rank(_enum.Enum):
+    YEAR = "year"
+    DAY = "day"
+    MS = "ms"
+    def of(self, rec):
+        return rec[self.value]
+*_COARSE, _FINEST = _Rank
+_FIRST, *_REST = _Rank
+_A = _B = 7
+_P, _Q = divmod(17, 5)
+def f():
+    rec = {'year': 2020, 'day': 3, 'ms': 250}
+    return ([r.name for r in reversed(_Rank)], [r.of(rec) for r in _COARSE], _FINEST.of(rec), _FIRST.name, [r.value for r in _REST], _A + _B, _P, _Q,
+            len(_Rank), _Rank('day') is _Rank.DAY, _Rank['MS'].value)
+---
+from typing import NamedTuple as _NT
+class _Line(_NT):
+    a: float
+    b: float
+    c: float = 1.0
+    @classmethod
+    def through(cls, seg):
+        return cls._make((seg[1] - seg[3], seg[2] - seg[0], seg[0] * seg[3] - seg[2] * seg[1]))
+    def side(self, x, y):
+        return self.a * x + self.b * y + self.c
+def f():
+    ln = _Line.through([0.0, 0.0, 2.0, 2.0])
+    try:
+        _Line._make([1.0])
+        short = None
+    except TypeError:
+        short = 'TypeError'
+    return ln.side(1.0, 0.0), ln.side(0.0, 1.0), tuple(ln), _Line._fields, short, _Line(1.0, 2.0).c, ln._replace(c=5.0).c, _Line._make(iter((1, 2, 3))).b
 '''
 
 
